@@ -9,20 +9,21 @@ CONSTANTS KSet, KinSet, MaxEm, MaxCall, Kinds, Emit
 MCInit ==
   /\ \E kind \in Kinds : \E K \in KSet : \E Kin \in KinSet : \E failAt \in 0..2 : \E maxfun \in {0, 1} :
      \E ab \in ({<<0, 0, 0>>} \cup {<<e, r, 0>> : e \in 1..MaxEm, r \in 1..(2 * NH + NO)} \cup {<<0, 0, c>> : c \in 1..MaxCall}) :
-       /\ (kind # "nested" => Kin = 1)
+       /\ (kind \notin {"nested", "renest"} => Kin = 1)
        /\ (kind = "eval" => K = 1 /\ maxfun = 0)
-       /\ (kind = "nested" => failAt = 0)
-       /\ (ab[2] > NH + NO => kind = "nested")
+       /\ (kind \in {"nested", "renest"} => failAt = 0)
+       /\ (kind = "renest" => K = 1 /\ maxfun = 0)
+       /\ (ab[2] > NH + NO => kind \in {"nested", "renest"})
        /\ \E twoctx \in BOOLEAN : \E redir \in BOOLEAN :
             \* twoctx: the inner plan lives on its own OptimizerContext (observers on the root one)
             \* redir: optimizer.stdout is configured (output redirection is active while the backend runs); the event
             \*        protocol, the exit codes and the abort latch do not depend on it
-            /\ (twoctx => kind = "nested") /\ (redir => kind # "eval")
+            /\ (twoctx => kind = "nested") /\ (redir => kind \notin {"eval", "renest"})
             /\ cfg = [kind |-> kind, K |-> K, Kin |-> Kin, failAt |-> failAt, maxfun |-> maxfun,
                       abEm |-> ab[1], abRc |-> ab[2], abCall |-> ab[3], twoctx |-> twoctx, redir |-> redir]
-       /\ m = NewStep(1, 1, IF kind = "eval" THEN "eval" ELSE "opt", K, kind = "nested")
+       /\ m = NewStep(1, 1, IF kind = "eval" THEN "eval" ELSE "opt", K, kind \in {"nested", "renest"})
   /\ stack = <<>> /\ stream = <<>> /\ emc = 0 /\ callc = 0
-  /\ aborted = <<FALSE, FALSE>> /\ rets = <<>> /\ refused = <<>>
+  /\ aborted = <<FALSE, FALSE, FALSE>> /\ rets = <<>> /\ refused = <<>>
 
 MCSpec == MCInit /\ [][Next]_vars /\ WF_vars(Next)
 
